@@ -165,6 +165,17 @@ func (ex *Exec) callVF(fr *frame, fn *ssa.Function, args []Value, site ssa.Instr
 		return r
 	case "vfImplies":
 		return c.Implies(args[0].(*sym.Term), args[1].(*sym.Term))
+	case "vfOnSend":
+		chI, _ := args[0].(Iface)
+		hI, _ := args[1].(Iface)
+		ch, ok := chI.V.(*Chan)
+		if !ok || ch == nil {
+			ex.unsupported("vfOnSend needs a non-nil channel")
+		}
+		old := ch.Handler
+		ch.Handler = hI.V
+		ex.undoFn(func() { ch.Handler = old })
+		return nil
 	case "vfObserve":
 		if ex.cfg.Debug {
 			fmt.Printf("OBSERVE %s = %s\n", ToString(args[0]), ToString(args[1]))
